@@ -186,7 +186,9 @@ def run_component(name, pid, seed):
         from msdm.algorithms import LAOStar, LRTDP
         mm, f, g = relabeled(P)
         if name == "laostar_mixed_labels":
-            res = LAOStar(heuristic=lambda s: 0.0 if g[s] in sp.flag else 50.0, seed=seed).plan_on(mm)
+            k = (SEEDS_THOROUGH.index(seed) + PROBLEMS_THOROUGH.index(pid)) % 2
+            res = LAOStar(heuristic=lambda s: 0.0 if g[s] in sp.flag else 50.0, seed=seed, randomize_action_order=(k == 0),
+                          randomize_nextstate_order=(k == 0)).plan_on(mm)
             nodes = res.solution_graph.states_to_nodes
             return dict(iv=res.initial_value, it=res.iterations, v=res.state_value_map,
                         pol={s: dict(res.policy.action_dist(s).items()) for s in nodes},
@@ -199,12 +201,18 @@ def run_component(name, pid, seed):
         arr = Rf.Arr(sp)
         sol = Rf.solve(arr, sp.gamma, arr.flag.copy())
         h = {s: float(v) + 1.0 for s, v in zip(arr.S, sol.V)}
-        res = LAOStar(heuristic=lambda s: h[s], seed=seed).plan_on(mdp)
+        # the two ordering switches in all four combinations (by seed and problem): a seeded planner is reproducible and
+        # leaves the global generators alone whatever they are set to
+        k = (SEEDS_THOROUGH.index(seed) + PROBLEMS_THOROUGH.index(pid)) % 4
+        rao, rno = [(True, True), (False, False), (True, False), (False, True)][k]
+        res = LAOStar(heuristic=lambda s: h[s], seed=seed, randomize_action_order=rao,
+                      randomize_nextstate_order=rno).plan_on(mdp)
         pol = {s: dict(res.policy.action_dist(s).items()) for s in res.solution_graph.states_to_nodes}
         return dict(iv=res.initial_value, it=res.iterations, v=res.state_value_map, pol=pol)
     if name == "lrtdp":
         from msdm.algorithms import LRTDP
-        res = LRTDP(heuristic=lambda s: 50.0, seed=seed, randomize_action_order=True, bellman_error_margin=1e-2).plan_on(mdp)
+        k = (SEEDS_THOROUGH.index(seed) + PROBLEMS_THOROUGH.index(pid)) % 2
+        res = LRTDP(heuristic=lambda s: 50.0, seed=seed, randomize_action_order=(k == 0), bellman_error_margin=1e-2).plan_on(mdp)
         return dict(iv=res.initial_value, V=dict(res.V), pol={s: dict(res.policy.action_dist(s).items()) for s in dict.keys(res.V)})
     if name in ("astar", "bfs"):
         from msdm.algorithms.search import AStarSearch, BreadthFirstSearch
